@@ -81,6 +81,7 @@ class Backend:
         self.exec_result = None
         self.input_payload = input_payload
         self.applied_at_return = None
+        self.changed: list[str] = []    # operations the backend changed on its own since its last response
 
     # ---------------------------------------------------------------- lifecycle automaton (C11 oracle)
     def _validate(self, u):
@@ -172,6 +173,11 @@ class Backend:
             raise (self.fail_exc or ApiError("api down"))
         touched = [self._apply(u) for u in updates]
         touched = [o for o in touched if o is not None]
+        # operations the backend itself changed since the last response (timers fired, callbacks answered) are reported too
+        for oid in self.changed:
+            if all(o.operation_id != oid for o in touched):
+                touched.append(self.ops[oid])
+        self.changed = []
         if self.crash_call is not None and self.crash_call[:2] == key and self.crash_call[2] == "after":
             raise Crash()
         self.token_n += 1
@@ -197,6 +203,11 @@ class Backend:
     # ---------------------------------------------------------------- between invocations
     def advance(self):
         """timers fire, awaited callbacks and invokes complete"""
+        before = dict(self.ops)
+        self._advance()
+        self.changed += [oid for oid in self.order if self.ops[oid] is not before[oid] and oid not in self.changed]
+
+    def _advance(self):
         for oid, op in list(self.ops.items()):
             if op.operation_type is OperationType.STEP and op.status is ST.PENDING:
                 self.ops[oid] = dataclasses.replace(op, status=ST.READY, step_details=dataclasses.replace(op.step_details, next_attempt_timestamp=None))
@@ -215,6 +226,7 @@ class Backend:
     def invocation_event(self):
         self.invocation += 1
         self.calls = 0
+        self.changed = []
         execop = Operation(EXEC_ID, OperationType.EXECUTION, ST.STARTED, execution_details=ExecutionDetails(self.input_payload))
         history = [execop] + [self.ops[i] for i in self.order]
         marker = ""
